@@ -280,6 +280,7 @@ pub fn run_feprog(_h: &Ev, evs: &mut Vec<Value>) {
                 "mul" => &r[a] * &r[b],
                 "square" => r[a].square(),
                 "square_and_double" => r[a].square_and_double(),
+                "mul_small" => r[a].verif_mul_small(get_usize_or(&e, "nine", 0) == 1),
                 "square_repeatdly" => r[a].square_repeatdly(get_usize(&e, "n")),
                 "invert" => r[a].invert(),
                 "pow25523" => r[a].pow25523(),
